@@ -59,6 +59,10 @@ def generate(rng, tier):
         if kind == "date" and rng.random() < 0.25:
             rkind = "datetime"          # dates against datetimes (at midnight)
             tags.add("datetime-units-differ")
+        if kind in ("str", "ustr") and rng.random() < 0.3:
+            # the same strings held differently on the two sides: the library's string type, NumPy's fixed-width one, an object column of str
+            rkind = rng.choice([k for k in ("str", "ustr", "ostr") if k != kind])
+            tags.add("string-kinds-differ")
         p = gen.pool(rng, kind, 0.15 if rkind == kind else 0.0, tags)
         rng.shuffle(p)
         k = rng.randint(1, min(4, len(p)))
@@ -105,6 +109,9 @@ def generate(rng, tier):
         if any(s[0] == name for s in rspec): continue
         rspec.append((name, kind, gen.gen_values(rng, kind, nr, rng.choice(gen.NA_PATTERNS), "few", 0.2, tags)))
     join = rng.choice(JOINS)
+    if join == "full_join":
+        # (stacking a string column on an object column of str is a matter of C09's promotable kinds: '' is a value in an object column)
+        rspec = [(n_, "str" if k_ == "ostr" else k_, v_) for n_, k_, v_ in rspec]
     if join == "full_join" and "left-column-in-two-pairs" in tags:
         # which of two differing right values a right-only row shows under the one left name is not defined: not generated for full_join
         import re as _re
@@ -127,6 +134,10 @@ def generate(rng, tier):
         rng.shuffle(rest)
         rspec = [rspec[0]] + rest
     rng.shuffle(by)
+    if rng.random() < 0.3:
+        # an empty side that was made from empty lists -- DataFrame(k=[], v=[]) -- has float columns whatever the other side's keys are
+        if nr == 0: rspec = [(n_, "float" if n_ != "_rid_" else k_, v_) for n_, k_, v_ in rspec]; tags.add("empty-side-of-float-columns")
+        if nl == 0: lspec = [(n_, "float" if n_ != "_lid_" else k_, v_) for n_, k_, v_ in lspec]; tags.add("empty-side-of-float-columns")
     case = {"join": join, "left": lspec, "right": rspec, "by": by, "tags": sorted(tags)}
     if rng.random() < 0.25:
         side = rng.choice(["right", "right", "left"])
